@@ -39,6 +39,8 @@ pub struct CongestionController {
     // epoch packet trackers
     trackers: [Arc<dyn Feedback>; 3],
     need_send_ack_eliciting_packets: [usize; Epoch::count()],
+    // Epochs whose keys have been discarded; the PTO back-off is restarted only the first time.
+    discarded_epochs: [bool; Epoch::count()],
     path_status: PathStatus,
     tx_waker: ArcSendWaker,
 }
@@ -73,6 +75,7 @@ impl CongestionController {
             pending_burst: false,
             trackers,
             need_send_ack_eliciting_packets: [0; Epoch::count()],
+            discarded_epochs: [false; Epoch::count()],
             path_status,
             tx_waker,
         }
@@ -460,7 +463,12 @@ impl CongestionController {
         assert!(epoch != Epoch::Data);
         self.packet_spaces[epoch].discard(&mut self.algorithm);
         self.loss_detection_timer = None;
-        self.pto_count = 0;
+        // Keys are discarded once. This is also reached for every Handshake packet a client sends
+        // and every Handshake ACK a server receives; those repeated calls only purge the epoch and
+        // must not restart the PTO back-off.
+        if !std::mem::replace(&mut self.discarded_epochs[epoch], true) {
+            self.pto_count = 0;
+        }
         self.set_loss_detection_timer();
     }
 
